@@ -58,6 +58,14 @@ func knownMinLen(v ssa.Value, fs []facts.Fact) int64 {
 		if k, ok := constInt(x.Len); ok {
 			return k
 		}
+		// make([]byte, K+len(y)): at least K
+		if b, ok := x.Len.(*ssa.BinOp); ok && b.Op == token.ADD {
+			for _, pr := range [][2]ssa.Value{{b.X, b.Y}, {b.Y, b.X}} {
+				if k, isK := constInt(pr[0]); isK && k >= 0 && nonNegative(pr[1], nil, 0) {
+					return k
+				}
+			}
+		}
 	case *ssa.Slice:
 		// full slice of an array
 		if pt, ok := x.X.Type().Underlying().(*types.Pointer); ok {
